@@ -101,6 +101,8 @@ def run():
     rep.set("steps_binding_B", nB)
     rep.set("outcomes_binding_A", outcomes)
     rej = rejA + rejB
+    from ..repo_traces import validate_recorded
+    validate_recorded(rep, "C11", "tree")
     details = find_steps(filesA + filesB, [r[1] for r in rej]) if rej else {}
     for r in rej:
         _, tid, clause, prop, ctx = r[:5]
